@@ -8,12 +8,14 @@ package palias
 import (
 	"context"
 	"fmt"
+	"io"
 	"reflect"
 	"sort"
 	"strconv"
 	"strings"
 	"testing"
 
+	"github.com/spf13/pflag"
 	"github.com/vimeo/dials"
 	"github.com/vimeo/dials/ptrify"
 	dpflag "github.com/vimeo/dials/sources/pflag"
@@ -236,9 +238,17 @@ func runShort(c ShortCase) vrt.Verdict {
 	var panicked any
 	func() {
 		defer func() { panicked = recover() }()
-		set, serr := dpflag.NewSetWithArgs(dpflag.DefaultFlagNameConfig(), reflect.New(T).Interface(), args)
+		// the caller-owned FlagSet form (as with cobra), so that pflag's
+		// own complaints do not land on stderr
+		fs := pflag.NewFlagSet("", pflag.ContinueOnError)
+		fs.SetOutput(io.Discard)
+		set, serr := dpflag.NewSetWithFlagSet(dpflag.DefaultFlagNameConfig(), reflect.New(T).Interface(), fs)
 		if serr != nil {
-			gerr = fmt.Errorf("NewSetWithArgs: %w", serr)
+			gerr = fmt.Errorf("NewSetWithFlagSet: %w", serr)
+			return
+		}
+		if perr := fs.Parse(args); perr != nil {
+			gerr = fmt.Errorf("failed to parse pflags: %w", perr)
 			return
 		}
 		got, gerr = set.Value(context.Background(), dials.NewType(pt))
@@ -324,11 +334,11 @@ func TestC14PFlagShorthand(t *testing.T) {
 	vrt.Check(t, vrt.Prop[ShortCase]{
 		ID: "C14", Name: "pflag-shorthand",
 		Rule: "flat config structs of 1..5 leaf fields (leaf types as in the other C14 checks), each with a dials tag, optionally dialsalias and/or dialspflagalias, optionally dialspflagshort and/or dialspflagshortalias (distinct letters); per field neither / primary / alias / both, the primary spelled as --long or -s, the alias as --aliaslong or -a; " +
-			"executed through pflag.NewSetWithArgs + Value; oracle as for the other C14 checks (both => error naming the field, else the value lands / nil); " +
+			"executed through pflag.NewSetWithFlagSet on a harness-owned FlagSet, FlagSet.Parse(args), Value; oracle as for the other C14 checks (both => error naming the field, else the value lands / nil); " +
 			"non-trivial = >=2 fields, >=2 supplied values, and an aliased field supplied through a shorthand; distinct = distinct case JSON",
 		Assumptions: []string{
 			"pflag.go passes dialspflagshort to its alias mangler, so dialspflagshortalias is taken to be a supported alias spelling of the pflag source",
-			"explicit FlagSet via NewSetWithArgs, zero-valued template",
+			"explicit harness-owned FlagSet (NewSetWithFlagSet, output discarded), zero-valued template",
 			"a shorthand is written -x value (-x=value for bools)",
 		},
 		Gen: genShort, Run: runShort,
